@@ -880,6 +880,11 @@ v('C17 C01', 'fire', K, '        cos = 1 - norm2 / 2 + norm4 / 24\n', '        c
 v('C17 C01 C02', 'silent', K, '        cos = 1 - norm2 / 2 + norm4 / 24\n', '        cos = 1 - norm2 * (0.5 - norm2 / 24)\n',
   'Horner form of the small-angle cosine')
 
+vp('C13', 'fire', 'seeded/C13-large-correction-through-ecef/patch.diff',
+   'round-8 seed C13: perturb_lla applies displacements over 1 km through ECEF, the altitude is no longer copied')
+vp('C13', 'silent', 'refactors/T01-C13-altitude-restored.diff',
+   'the same large-displacement arm with the altitude of the linear formulas written back')
+
 
 # ---------------------------------------------------------------- refactorings (fifth session)
 # Behaviour-preserving refactorings written by sub-agents that saw nothing of /verif (each comes
